@@ -513,43 +513,58 @@ def refine_specs(specs):
     return out
 
 
+def _refine_worker(args):
+    """one traced run turned into model lines (runs in a pool process); returns plain data"""
+    spec, pid = args
+    try:
+        run, lines, expect, kinds = refine_run(spec)
+    except Exception as ex:
+        import traceback
+
+        from .common import is_env_crash
+
+        if is_env_crash(ex):
+            return {"status": "env", "exc": type(ex).__name__}
+        return {"status": "crash", "impl": f"run crashed: {type(ex).__name__}: {ex}", "tb": traceback.format_exc()[-800:]}
+    sanity = [dict(v) for v in env_sanity(run) if pid is None or v["signature"].startswith(pid)]
+    return {"status": "ok", "lines": lines, "expect": expect, "kinds": kinds, "demes": list(run.order), "steps": run.steps,
+            "nrounds": len(run.rounds), "stage_classes": [[st["cls"] for st in r["stages"]] for r in run.rounds], "sanity": sanity}
+
+
 def refine_batch(ctx, n, salt=31, force=None, name="trace-refinement", pid=None):
+    from .common import pmap
+
     sl = Slice(name)
     sl.is_trace = True
     rng = ctx.rng(salt)
+    n = ctx.boost(n) if hasattr(ctx, "boost") else n
+    specs = [cs if cs is not None else R.rand_spec(rng, **(force(rng) if callable(force) else (force or {}))) for cs in R.corpus_specs() + [None] * n]
+    results = pmap(_refine_worker, [(spec, pid) for spec in specs], chunksize=2)
     all_lines = []
     metas = []
-    for cs in R.corpus_specs() + [None] * n:
-        spec = cs if cs is not None else R.rand_spec(rng, **(force(rng) if callable(force) else (force or {})))
-        try:
-            run, lines, expect, kinds = refine_run(spec)
-        except Exception as ex:
-            import traceback
-
-            from .common import is_env_crash
-
-            if is_env_crash(ex):
-                sl.skipped += 1
-                sl.count("skipped:third-party-library-raised:" + type(ex).__name__)
-                continue
-            sl.disagreements.append({"spec": spec, "impl": f"run crashed: {type(ex).__name__}: {ex}", "model": "", "tb": traceback.format_exc()[-800:]})
+    for spec, r in zip(specs, results):
+        if r["status"] == "env":
+            sl.skipped += 1
+            sl.count("skipped:third-party-library-raised:" + r["exc"])
             continue
-        metas.append((spec, run, len(all_lines), len(lines), expect, kinds))
-        all_lines += lines
-    got = run_driver(all_lines) if all_lines else []
-    for spec, run, off, ln, expect, kinds in metas:
+        if r["status"] == "crash":
+            sl.disagreements.append({"spec": spec, "impl": r["impl"], "model": "", "tb": r["tb"]})
+            continue
+        metas.append((spec, r, len(all_lines), len(r["lines"])))
+        all_lines += r["lines"]
+    got = run_driver_parallel(all_lines, [(off, ln) for _, _, off, ln in metas]) if all_lines else []
+    for spec, r, off, ln in metas:
         sl.cases += 1
         d = R.describe(spec)
         sl.count("engines:" + ">".join(d["engines"]))
         sl.count("gsc:" + d["gsc"])
         sl.count("sprout:" + d["sprout"])
         sl.count("events", ln)
-        sl.count("rounds", len(run.rounds))
-        sl.count("demes", len(run.order))
-        if len(run.order) >= 2 and run.steps >= 2:
+        sl.count("rounds", r["nrounds"])
+        sl.count("demes", len(r["demes"]))
+        if len(r["demes"]) >= 2 and r["steps"] >= 2:
             sl.nontrivial.add(R.spec_id(spec))
-        stage_classes = [[st["cls"] for st in r["stages"]] for r in run.rounds]
-        dis = compare(all_lines[off : off + ln], expect, kinds, got[off : off + ln], stage_classes)
+        dis = compare(all_lines[off : off + ln], r["expect"], r["kinds"], got[off : off + ln], r["stage_classes"])
         rel = RELEVANT.get(pid)
         first = True
         for x in dis:
@@ -562,9 +577,32 @@ def refine_batch(ctx, n, salt=31, force=None, name="trace-refinement", pid=None)
                     x["describe"] = d
                     first = False
                     sl.disagreements.append(x)
-        for v in env_sanity(run):
-            if pid is None or v["signature"].startswith(pid):
-                sl.violations.append(dict(v, replay={"spec": spec}))
+        for v in r["sanity"]:
+            sl.violations.append(dict(v, replay={"spec": spec}))
         if sl.cases <= 2:
             sl.sample({"spec": d, "event_lines": ln, "first_event": all_lines[off + 1][:160], "last_dump": got[off + ln - 1][:200]})
     return sl
+
+
+def _driver_chunk(lines):
+    return run_driver(lines)
+
+
+def run_driver_parallel(all_lines, segments):
+    """the model driver on whole runs in parallel: every run's lines start a fresh session (the first
+    line of a run is its configuration), so the input can be cut at run boundaries"""
+    from .common import n_workers, pmap
+
+    k = n_workers()
+    if k == 1 or len(segments) < 8:
+        return run_driver(all_lines)
+    per = max(1, (len(segments) + k - 1) // k)
+    chunks = []
+    for i in range(0, len(segments), per):
+        segs = segments[i : i + per]
+        chunks.append(all_lines[segs[0][0] : segs[-1][0] + segs[-1][1]])
+    outs = pmap(_driver_chunk, chunks)
+    got = []
+    for o in outs:
+        got += o
+    return got
